@@ -245,8 +245,11 @@ func (c *clientPlaySessionHandler) FlushQueuedPluginMessages() {
 }
 
 type (
-	backendConnAdapter struct{ netmc.MinecraftConn }
-	keepAliveAdapter   struct{ *connectedPlayer }
+	backendConnAdapter struct {
+		netmc.MinecraftConn // the backend connection
+		player              *connectedPlayer
+	}
+	keepAliveAdapter struct{ *connectedPlayer }
 )
 
 var (
@@ -254,8 +257,12 @@ var (
 	_ phase.KeepAlive   = (*keepAliveAdapter)(nil)
 )
 
+// FlushQueuedPluginMessages flushes the plugin messages the client's play session
+// handler queued while the legacy Forge handshake was incomplete. The queue lives
+// on the player's connection (clientPlaySessionHandler), not on the backend
+// connection this adapter embeds.
 func (b *backendConnAdapter) FlushQueuedPluginMessages() {
-	if h, ok := b.ActiveSessionHandler().(interface{ FlushQueuedPluginMessages() }); ok {
+	if h, ok := b.player.ActiveSessionHandler().(interface{ FlushQueuedPluginMessages() }); ok {
 		h.FlushQueuedPluginMessages()
 	}
 }
@@ -272,7 +279,7 @@ func phaseHandle(
 		player,
 		player,
 		&keepAliveAdapter{player},
-		&backendConnAdapter{backendConn},
+		&backendConnAdapter{MinecraftConn: backendConn, player: player},
 		msg,
 	)
 }
